@@ -131,6 +131,7 @@ typedef struct {
 	int      nrep, nctx;
 	bool     use_sock;
 	int      retry_ms; // -1: infinite; the socket's value when the contexts are opened
+	int      gap; // history plan: 1 close / 2 cancel / 3 receive-timeout on context 1, then an idle gap, then the plan on context 0
 	bool     big; // 40-200 kB requests, nng's sends are cut into chunks <= 8 kB (needed for close-partial)
 	bool     mixed; // contexts get their own values (nng_ctx_set_ms), changed between exchanges
 	int      tick_ms;
@@ -227,6 +228,7 @@ static struct {
 	vf_rng           ar;
 	pthread_t        ath;
 	atomic_bool      stop, go, started;
+	atomic_bool      hold; // prelude of a history plan: read requests, do not answer
 	_Atomic uint64_t t_fault;
 	atomic_bool      plan_done;
 	_Atomic uint64_t fence_req, fence_ack;
@@ -691,7 +693,7 @@ on_frame(conn *c, const uint8_t *p, size_t plen)
 	x->t_last_wire = now;
 	pthread_mutex_unlock(&G.mx);
 
-	if (c->doomed) {
+	if (c->doomed || atomic_load(&G.hold)) {
 		return;
 	}
 	step *s = cur_step();
@@ -1338,6 +1340,83 @@ pick_retry(vf_rng *r)
 	return v[vf_below(r, 4)];
 }
 
+static const char *gapname[4] = { "", "ctx-close", "recv-cancel", "recv-timeout" };
+
+// History plans: context c1 completes an exchange and then leaves the
+// socket's retry queue (closed / receive cancelled / receive timed out), the
+// socket stays idle for more than two resend ticks, and only then the plan
+// proper (a dropped first copy on a connection that stays up) runs on a
+// context that has not sent anything yet.  Returns false if the prelude
+// itself did not work out.
+static bool
+prelude_step(rctx *rc, int op, long tmo_ms, int *rvp)
+{
+	int      xi = x_new(rc, op, false);
+	xrec    *x  = &G.x[xi];
+	uint64_t B  = bound_ns(x->retry_ms);
+	issue_send(rc, xi);
+	if (wait_flag(&rc->sdone, x->t_issue, B) != 0) {
+		set_miss("send not accepted within the bound (history prelude)", xi);
+		nng_aio_cancel(rc->sa);
+		nng_aio_wait(rc->sa);
+		if (nng_aio_result(rc->sa) != 0 && nng_aio_get_msg(rc->sa) != NULL) {
+			nng_msg_free(nng_aio_get_msg(rc->sa));
+		}
+		abandon(rc, xi, false);
+		return false;
+	}
+	nng_aio_wait(rc->sa);
+	if (nng_aio_result(rc->sa) != 0) {
+		vf_harness_fail("history prelude: send failed: %s", nng_strerror(nng_aio_result(rc->sa)));
+	}
+	nng_aio_set_timeout(rc->ra, (nng_duration) tmo_ms);
+	atomic_store(&rc->rdone, 0);
+	nng_ctx_recv(rc->ctx, rc->ra);
+	uint64_t t_term = 0;
+	if (op == OP_CANCEL) {
+		vf_msleep(3);
+		nng_aio_cancel(rc->ra);
+		t_term = vf_now_ns();
+	}
+	if (wait_flag(&rc->rdone, x->t_issue, B) != 0) {
+		set_miss("receive not answered within the bound (history prelude)", xi);
+		abandon(rc, xi, true);
+		return false;
+	}
+	uint64_t t_done = vf_now_ns();
+	nng_aio_wait(rc->ra);
+	int      rv = (int) nng_aio_result(rc->ra);
+	nng_msg *m  = rv == 0 ? nng_aio_get_msg(rc->ra) : NULL;
+	nng_aio_set_msg(rc->ra, NULL);
+	judge(rc, xi, rv, m, t_term > t_done ? t_term : t_done);
+	vf_stat("exchanges", 1);
+	*rvp = rv;
+	return true;
+}
+
+static bool
+prelude(rctx *c1, int gap, bool *closed)
+{
+	int rv = 0;
+	if (!prelude_step(c1, OP_NORMAL, LONG_MS, &rv) || rv != 0) {
+		return false;
+	}
+	if (gap == 1) {
+		nng_ctx_close(c1->ctx);
+		*closed = true;
+	} else {
+		atomic_store(&G.hold, true);
+		bool ok = prelude_step(c1, gap == 2 ? OP_CANCEL : OP_TIMEOUT, gap == 2 ? LONG_MS : 5, &rv);
+		atomic_store(&G.hold, false);
+		if (!ok || rv != (gap == 2 ? NNG_ECANCELED : NNG_ETIMEDOUT)) {
+			return false;
+		}
+	}
+	// more than two ticks with nothing outstanding on the socket
+	vf_msleep(3 * G.c.tick_ms + 15);
+	return true;
+}
+
 static void *
 requester(void *arg)
 {
@@ -1515,6 +1594,7 @@ run_case(long idx, const casecfg *cfg, bool recheck)
 	atomic_store(&G.stop, false);
 	atomic_store(&G.go, false);
 	atomic_store(&G.started, false);
+	atomic_store(&G.hold, false);
 	atomic_store(&G.t_fault, 0);
 	atomic_store(&G.plan_done, false);
 	atomic_store(&G.fence_req, 0);
@@ -1529,8 +1609,8 @@ run_case(long idx, const casecfg *cfg, bool recheck)
 	for (int i = 0; i < MAXCONN; i++) {
 		G.cn[i].fd = -1;
 	}
-	vf_case_begin(idx, "%s tran=%s resend=%s tick=%d ctx=%d%s rep=%d plan=%s ops=%d stale=%d jit=%d big=%d key=%llx%s", cfg->enumerated ? "enum" : "sampled", cfg->tran ? "ipc" : "tcp", cfg->rname, cfg->tick_ms, cfg->nctx,
-	    cfg->use_sock ? "+sock" : "", cfg->nrep, cfg->shape, cfg->ops, cfg->stale, cfg->jit_permille, cfg->big, (unsigned long long) cfg->key, recheck ? " (recheck)" : "");
+	vf_case_begin(idx, "%s tran=%s resend=%s tick=%d ctx=%d%s rep=%d plan=%s%s ops=%d stale=%d jit=%d big=%d key=%llx%s", cfg->enumerated ? "enum" : "sampled", cfg->tran ? "ipc" : "tcp", cfg->rname, cfg->tick_ms, cfg->nctx,
+	    cfg->use_sock ? "+sock" : "", cfg->nrep, gapname[cfg->gap], cfg->shape, cfg->ops, cfg->stale, cfg->jit_permille, cfg->big, (unsigned long long) cfg->key, recheck ? " (recheck)" : "");
 	vf_watchdog(90);
 
 	for (int r = 0; r < cfg->nrep; r++) {
@@ -1608,12 +1688,19 @@ run_case(long idx, const casecfg *cfg, bool recheck)
 		// nng's own sends move at most 8 kB per call from now on
 		vf_io_plan(VF_IO_RANDOM, 8192, VF_IO_FULL, 0, cfg->key);
 	}
+	bool c1_closed = false, history_ok = true;
+	if (cfg->gap) {
+		history_ok = prelude(&rc[1], cfg->gap, &c1_closed);
+	}
 	// the plan starts now (an iofault first step is armed on idle pipes)
 	atomic_store(&G.go, true);
 	while (!atomic_load(&G.started)) {
 		vf_usleep(200);
 	}
 	for (int i = 0; i < cfg->nctx; i++) {
+		if (cfg->gap && (i == 1 || !history_ok)) {
+			continue; // context 1 only plays the prelude
+		}
 		if (pthread_create(&rc[i].th, NULL, requester, &rc[i]) != 0) {
 			vf_harness_fail("pthread_create");
 		}
@@ -1659,7 +1746,7 @@ run_case(long idx, const casecfg *cfg, bool recheck)
 	for (int i = 0; i < cfg->nctx; i++) {
 		nng_aio_stop(rc[i].sa);
 		nng_aio_stop(rc[i].ra);
-		if (!rc[i].is_sock) {
+		if (!rc[i].is_sock && !(cfg->gap && i == 1 && c1_closed)) {
 			nng_ctx_close(rc[i].ctx);
 		}
 		nng_aio_free(rc[i].sa);
@@ -1675,6 +1762,9 @@ run_case(long idx, const casecfg *cfg, bool recheck)
 		miss |= 2;
 	}
 
+	if (cfg->gap && !history_ok && !miss && !atomic_load(&G.abort)) {
+		vf_harness_fail("history prelude did not produce the intended history");
+	}
 	if (!miss && !atomic_load(&G.abort)) {
 		// evidence
 		long once = 0, inf = 0, lng = 0, third = 0;
@@ -1725,7 +1815,13 @@ run_case(long idx, const casecfg *cfg, bool recheck)
 		if (nf > 1) {
 			vf_stat("multi_fault_cases", 1);
 		}
-		if (cfg->enumerated) {
+		if (cfg->gap) {
+			if (history_ok && G.faults[F_DROP] > 0 && G.retx_timer > 0) {
+				// the whole history happened and the timer did its job
+				vf_stat("idle_gap_then_reply_loss_cases", 1);
+			}
+			vf_class("plan/history/%s/%s/%s-then-%s", cfg->tran ? "ipc" : "tcp", cfg->rname, gapname[cfg->gap], cfg->use_sock ? "socket" : "ctx");
+		} else if (cfg->enumerated) {
 			vf_class("plan/enum/%s/%s/%s.%d.%d/ctx%d%s", cfg->tran ? "ipc" : "tcp", cfg->rname, fname[cfg->steps[0].kind], cfg->steps[0].var, cfg->nsteps > 1 ? -cfg->steps[1].kind : cfg->steps[0].d_ms, cfg->nctx, cfg->use_sock ? "+sock" : "");
 		} else {
 			vf_class("plan/sampled/%s/%s", cfg->mixed ? "mixed" : cfg->retry_ms < 0 ? "inf" : r_timer(cfg->retry_ms) ? "finite" : "long", cfg->shape);
@@ -1756,10 +1852,11 @@ check_case(long idx, casecfg *cfg)
 		fprintf(stderr, "C12: %s in case %ld (%s), re-running once\n", (m1 & 1) ? "bounded-progress miss" : "late timer retransmission", idx, (m1 & 1) ? first : late1);
 		int m2 = run_case(idx, cfg, true);
 		if ((m1 & 1) && (m2 & 1)) {
-			char key[110];
+			char key[140], disc[60];
 			// judged by the resend time of the request that missed first
+			snprintf(disc, sizeof(disc), "after-idle-gap/%s-then-%s", gapname[cfg->gap], cfg->use_sock ? "socket" : "ctx");
 			snprintf(key, sizeof(key), "C12/%s/%s", r1 < 0 ? "no-retry/no-econnreset-after-loss" : r_timer(r1) ? "bounded-progress/not-answered" : "bounded-progress/not-retransmitted-after-loss",
-			    cfg->nsteps == 1 ? fname[cfg->steps[0].kind] : cfg->enumerated ? "outage-then-reply-loss" : "multi-fault");
+			    cfg->gap ? disc : cfg->nsteps == 1 ? fname[cfg->steps[0].kind] : cfg->enumerated ? "outage-then-reply-loss" : "multi-fault");
 			vf_violation(key, "missed twice (bound %ld ms after the last fault). first run: %s; second run: %s", G.miss_bound_ms, first, G.miss_desc);
 		}
 		if ((m1 & 2) && (m2 & 2)) {
@@ -1842,6 +1939,40 @@ main(int argc, char **argv)
 							fix_step(&c.steps[1], c.retry_ms);
 						}
 						fix_step(&c.steps[0], c.retry_ms);
+						check_case(idx, &c);
+						if ((++ran % 24) == 0) {
+							vf_nng_fini("C12");
+							vf_nng_init(4, 2, 2);
+						}
+					}
+				}
+			}
+		}
+		// history plans: exchange on context 1, which then leaves the retry
+		// queue (close / cancel / timeout), idle gap of more than two ticks,
+		// then a dropped first copy (connection kept) on a fresh context or
+		// on the socket itself
+		for (int tran = 0; tran < 2; tran++) {
+			for (int ri = 0; ri < 3; ri++) {
+				for (int gap = 1; gap <= 3; gap++) {
+					for (int sock = 0; sock < 2; sock++, idx++) {
+						if ((idx % vf_nshards) != vf_shard || !vf_want_case(idx)) {
+							continue;
+						}
+						casecfg c;
+						memset(&c, 0, sizeof(c));
+						c.enumerated = true;
+						c.tran       = tran;
+						c.retry_ms   = resends[ri];
+						c.tick_ms    = 5 + (int) (vf_mix64(vf_seed ^ (uint64_t) idx) % 16);
+						c.nrep       = 1;
+						c.nctx       = 2;
+						c.use_sock   = sock;
+						c.gap        = gap;
+						c.key        = vf_mix64(vf_seed * 31 + (uint64_t) idx);
+						c.nonce      = (uint32_t) (c.key >> 20) & 0xffff;
+						c.nsteps     = 1;
+						c.steps[0]   = (step){ F_DROP, 0, 0 };
 						check_case(idx, &c);
 						if ((++ran % 24) == 0) {
 							vf_nng_fini("C12");
